@@ -51,6 +51,9 @@ func convertToComplex(other Object) (Complex, bool) {
 		return Complex(complex(b, 0)), true
 	case Int:
 		return Complex(complex(float64(b), 0)), true
+	case *BigInt:
+		x, err := b.Float()
+		return Complex(complex(x, 0)), err == nil
 	case Bool:
 		if b {
 			return Complex(1), true
